@@ -127,6 +127,10 @@ func offsetIn(sub, whole any) int {
 	if vs.Kind() != reflect.Slice || vw.Kind() != reflect.Slice {
 		return 0
 	}
+	if vs.Cap() == 0 {
+		// Go does not advance the pointer of a zero-capacity result; not observable at run time
+		panic("spec: offsetIn of a zero-capacity slice is not observable")
+	}
 	sz := vs.Type().Elem().Size()
 	if sz == 0 {
 		return 0
